@@ -386,7 +386,37 @@ theorem load_settings_total (envColor : Bool) (args : List String) (file : FileO
   intro err h
   exact merge_error_is_refurb _ _ _ _ h
 
+/-! ### No config file ≡ empty config file; contradictory switches are always refused -/
+
+/-- **The same command line behaves the same with no `pyproject.toml` and with an empty one** (no `--config-file`): in
+    particular whatever is refused in one situation is refused in the other. -/
+theorem no_config_eq_empty_config (envColor : Bool) (args : List String) (cli : Settings)
+    (h : parseCli envColor args = .ok cli) (hc : (orStr cli.configFile none).isSome = false) :
+    loadSettings envColor args .notFound = loadSettings envColor args (.ok []) := by
+  unfold loadSettings
+  simp only [h, bind, Except.bind, hc]
+  simp [parseConfig, Table.get?]
+
+/-- **`--enable-all` together with `--disable-all` is refused whatever the config file situation** (present, absent,
+    unreadable): the settings object is always built through `Settings.merge`, whose constructor validates it. -/
+theorem contradictory_switches_refused (envColor : Bool) (args : List String) (cli : Settings) (file : FileOutcome)
+    (h : parseCli envColor args = .ok cli) (hb : cli.enableAll = true ∧ cli.disableAll = true) :
+    ∃ e, loadSettings envColor args file = .error e := by
+  unfold loadSettings
+  simp only [h, bind, Except.bind]
+  split
+  · exact ⟨_, rfl⟩
+  · rename_i cfg _
+    unfold merge
+    have : ((mergeRaw envColor cfg cli).enableAll && (mergeRaw envColor cfg cli).disableAll) = true := by
+      simp [mergeRaw, hb.1, hb.2]
+    rw [this]
+    exact ⟨_, rfl⟩
+
 /-! ### Non-vacuity -/
+
+example : (parseCli false ["a.py", "--enable-all", "--disable-all"]).toOption.map
+    (fun c => (c.enableAll, c.disableAll, (orStr c.configFile none).isSome)) = some (true, true, false) := by decide +kernel
 
 example : parseConfig false [("tool", .int 5)] = .error (.refurb "refurb: \"tool\" must be a TOML table") := by
   simp [parseConfig, Table.get?, Toml.truthy]
